@@ -163,7 +163,7 @@ func Main(t *testing.T, engines map[string]EngineFunc) {
 			sig := v.Sig()
 			rf := &ReplayFile{Prop: prop, Tier: tier, Seed: seed, Tape: rc.Tape.Rec,
 				OrigTapeLen: len(rc.Tape.Rec), Violation: v, Trace: rc.Trace}
-			if !minimised[sig] && len(minimised) < 4 {
+			if !minimised[sig] && len(minimised) < 6 {
 				minimised[sig] = true
 				mt, runs, mrc := Minimize(t, eng, prop, tier, seed, rc.Tape.Rec, v,
 					time.Duration(minS)*time.Second)
@@ -177,6 +177,8 @@ func Main(t *testing.T, engines map[string]EngineFunc) {
 			b, _ := json.MarshalIndent(rf, "", " ")
 			if err := os.WriteFile(p, b, 0644); err == nil {
 				rc.Res.Replay = p
+				rc.Res.Minimised = rf.Minimised
+				rc.Res.MinTapeLen = len(rf.Tape)
 			}
 		}
 		emit(rc.Res)
